@@ -137,6 +137,22 @@ func compsOp(label string, comps []*refmodel.Comp, isNil bool) setOp {
 		}}
 }
 
+// AltComp is another ISwComponent implementation (embeds the stock one): a nil *AltComp in a list is a nil entry too
+type AltComp struct {
+	psatoken.SwComponent
+	Note string
+}
+
+// foreignNilOp: a list whose second entry is a nil pointer of another component type; never acceptable
+func foreignNilOp() setOp {
+	return setOp{name: "SetSoftwareComponents([A, nil-of-another-component-type])", claim: "components",
+		accept: func(p int) bool { return false },
+		real: func(cl psatoken.IClaims) error {
+			return cl.SetSoftwareComponents([]psatoken.ISwComponent{realComp(okComp(1, 32)), (*AltComp)(nil)})
+		},
+		model: func(a *refmodel.Claims) {}}
+}
+
 // setterAlphabet returns the operations; fine=true adds every length 0..80 etc.
 func setterAlphabet(fine bool) []setOp {
 	var ops []setOp
@@ -195,7 +211,7 @@ func setterAlphabet(fine bool) []setOp {
 		compsOp("[A,invalid]", []*refmodel.Comp{okComp(1, 32), bad}, false),
 	)
 	if fine {
-		ops = append(ops, compsOp("[signer-missing]", []*refmodel.Comp{noSigner}, false), compsOp("[A,nil-entry]", []*refmodel.Comp{okComp(1, 32), nil}, false))
+		ops = append(ops, compsOp("[signer-missing]", []*refmodel.Comp{noSigner}, false), compsOp("[A,nil-entry]", []*refmodel.Comp{okComp(1, 32), nil}, false), foreignNilOp())
 	}
 	for i, n := range lens([]int{32, 64, 33}) {
 		n, seed := n, byte(0x50+i)
